@@ -179,6 +179,7 @@ func Run(opts *Options) (int, error) {
 			if headerUpdated.Get() {
 				// Not under the lock of the chunk list: the main loop takes a
 				// snapshot of the list while it holds the lock of the event box
+				verifPoint("core.header", 0)
 				chunkList.mutex.Lock()
 				headerUpdated.Set(false)
 				lines := header
